@@ -1784,4 +1784,25 @@ def mon_C08(run):
     return bad[:1]
 
 
+def _with_lock_probe(mon):
+    """managed-pool monitors: the harness's probe found the slots mutex held inside a Manager::detach
+    call that the model (and the unchanged code) make with the mutex released"""
+    def f(run):
+        rows = getattr(run, "rows", None)
+        if rows:
+            for row in rows:
+                if row is None:
+                    continue
+                for e in row["ev"]:
+                    if e.startswith("atomicity(") and "locked@" in e:
+                        where = e[e.index("locked@") + 7:].rstrip(")")
+                        return [(row["k"], f"Manager::detach was called with the slots mutex held ({where}): there the pool lets go of a "
+                                           f"single object after its books are done and the mutex is released - a detach that looks at the pool "
+                                           f"(status(), returning another object) dead-locks, one that panics poisons the pool for every later call")]
+        return mon(run)
+    return f
+
+
 MONITORS = {"C16": mon_C16, "C17": mon_C17, "C14": mon_C14, "C15": mon_C15, "C18": mon_C18, "C19": mon_C19, "C05": mon_C05, "C12": mon_C12, "C08": mon_C08, "C13": mon_C13, "C04": mon_C04, "C07": mon_C07, "C06": mon_C06, "C09": mon_C09, "C03": mon_C03, "C10": mon_C10, "C01": mon_C01, "C02": mon_C02, "C11": mon_C11}
+for _pid in ("C01", "C02", "C03", "C04", "C06", "C07", "C08", "C09", "C10", "C11", "C13"):
+    MONITORS[_pid] = _with_lock_probe(MONITORS[_pid])
